@@ -82,6 +82,64 @@ pub fn request(_seed: u64) -> usize {
                 found += 1;
             }
         }
+        // two connections claim the same name while the first lookup is still unanswered (the mock answers after 400 ms): each
+        // connection's own has-joined request must reach the session server, with that connection's hash
+        let adapter = std::sync::Arc::new(MojangAdapter::default().with_server_id("srv".to_string()));
+        let secrets: [&'static [u8]; 2] = [b"verysecuresecret", b"anothersecret123"];
+        let heads = std::sync::Arc::new(std::sync::Mutex::new(Vec::<String>::new()));
+        let mock = tokio::spawn({
+            let l = &listener as *const TcpListener as usize;
+            let heads = heads.clone();
+            async move {
+                let l = unsafe { &*(l as *const TcpListener) };
+                let mut conns = vec![];
+                for _ in 0..2 {
+                    let Ok(Ok((mut s, _))) = tokio::time::timeout(std::time::Duration::from_secs(3), l.accept()).await else { break };
+                    let heads = heads.clone();
+                    conns.push(tokio::spawn(async move {
+                        let mut buf = vec![0u8; 8192];
+                        let mut n = 0;
+                        loop {
+                            let Ok(k) = s.read(&mut buf[n..]).await else { return };
+                            if k == 0 { break; }
+                            n += k;
+                            if buf[..n].windows(4).any(|w| w == b"\r\n\r\n") { break; }
+                        }
+                        heads.lock().unwrap().push(String::from_utf8_lossy(&buf[..n]).lines().next().unwrap_or("").to_string());
+                        tokio::time::sleep(std::time::Duration::from_millis(400)).await;
+                        let body = b"{\"id\":\"09879557e47945a9b434a56377674627\",\"name\":\"X\",\"properties\":[]}";
+                        let resp = format!("HTTP/1.1 200 OK\r\ncontent-type: application/json\r\ncontent-length: {}\r\nconnection: close\r\n\r\n", body.len());
+                        let _ = s.write_all(resp.as_bytes()).await;
+                        let _ = s.write_all(body).await;
+                        let _ = s.shutdown().await;
+                    }));
+                }
+                for c in conns { let _ = c.await; }
+            }
+        });
+        let mut logins = vec![];
+        for sec in secrets {
+            let adapter = adapter.clone();
+            logins.push(tokio::spawn(async move {
+                let addr = SocketAddr::from_str("127.0.0.1:1").unwrap();
+                let id = Uuid::nil();
+                let _ = tokio::time::timeout(std::time::Duration::from_secs(5), adapter.authenticate(&addr, ("h", 1), 767, ("Steve", &id), sec, key)).await;
+            }));
+            tokio::time::sleep(std::time::Duration::from_millis(100)).await;
+        }
+        for l in logins { let _ = l.await; }
+        let _ = tokio::time::timeout(std::time::Duration::from_secs(6), mock).await;
+        let mut got: Vec<String> = heads.lock().unwrap().iter().map(|line| {
+            let target = line.split(' ').nth(1).unwrap_or("");
+            target.split_once("serverId=").map(|(_, h)| pct_decode(h.split('&').next().unwrap_or(""))).unwrap_or_default()
+        }).collect();
+        got.sort();
+        let mut want: Vec<String> = secrets.iter().map(|sec| reference_hash("srv", sec, key)).collect();
+        want.sort();
+        if got != want {
+            println!("REPRODUCED mojang two overlapping logins claiming \"Steve\" (different shared secrets): the session server mock received serverId values {got:?}, expected one request per connection with {want:?}");
+            found += 1;
+        }
     });
     found
 }
@@ -133,7 +191,9 @@ pub fn mchash(_seed: u64) -> usize {
     // each of: negative digests ending in 0x00 (carry), digests starting with a zero nibble / byte
     use sha1::{Digest, Sha1};
     for i in 0..60000u32 {
-        let (a, b, c) = (format!("passage-{i}"), format!("secret{}", i % 7), [i as u8, (i >> 8) as u8, 0x80, 0xff]);
+        // the same server id three times in a row with different secrets (one listener hashes with one id for every login): the
+        // result may depend on nothing but the three arguments
+        let (a, b, c) = (format!("passage-{}", i / 3), format!("secret{}", i % 7), [i as u8, (i >> 8) as u8, 0x80, 0xff]);
         let mut h = Sha1::new();
         h.update(a.as_bytes());
         h.update(b.as_bytes());
